@@ -630,11 +630,15 @@ func c16GenProfile(rng *h.Rng, types [][2]string, fnPool []string, maxSamples, m
 			}
 		default:
 			d := rng.Range(1, maxDepth)
+			if rng.Chance(2) {
+				// very deep stacks around the depth at which getNodeId clamps its level (511)
+				d = h.Pick(rng, []int{509, 510, 511, 512, 513, 640})
+			}
 			for k := 0; k < d; k++ {
 				locs = append(locs, rng.Intn(len(p.Locs)))
 			}
 		}
-		if len(locs) > 0 {
+		if len(locs) > 0 && len(locs) <= maxDepth {
 			prev = locs
 		}
 		s := c16Sample{}
